@@ -918,7 +918,12 @@ mod imp {
         point: &'static str,
         nth: u64,
         seed: u64,
+        /// how the destination is spelled for the child: 0 absolute, 1 bare file name (cwd = its directory), 2 "./name",
+        /// 3 "dirname/name" (cwd = the parent directory)
+        spelling: u8,
     }
+
+    const SPELLINGS: [&str; 4] = ["absolute", "bare-relative", "dot-relative", "parent-relative"];
 
     fn crash_cell(cell: Cell, _rt: &Arc<tokio::runtime::Runtime>, acc: &mut Acc) {
         let c = content_for(cell.p, cell.zstd, cell.seed, cell.n);
@@ -927,8 +932,18 @@ mod imp {
         let (dir, before) = prepare_dir(cell.dest);
         let dest = dir.join(DEST);
         let exe = std::env::current_exe().expect("current_exe");
-        let ch = std::process::Command::new(&exe)
-            .args(child_args(cell.seed, addr, cell.p, &dest, cell.point, cell.nth, false, c.trailer_len, Fnv::of(&c.logical)))
+        let (dest_arg, cwd): (PathBuf, Option<PathBuf>) = match cell.spelling {
+            1 => (PathBuf::from(DEST), Some(dir.clone())),
+            2 => (PathBuf::from(format!("./{DEST}")), Some(dir.clone())),
+            3 => (PathBuf::from(dir.file_name().expect("temp dir name")).join(DEST), dir.parent().map(|p| p.to_path_buf())),
+            _ => (dest.clone(), None),
+        };
+        let mut cmd = std::process::Command::new(&exe);
+        if let Some(cwd) = &cwd {
+            cmd.current_dir(cwd);
+        }
+        let ch = cmd
+            .args(child_args(cell.seed, addr, cell.p, &dest_arg, cell.point, cell.nth, false, c.trailer_len, Fnv::of(&c.logical)))
             .stdin(std::process::Stdio::null())
             .stdout(std::process::Stdio::null())
             .stderr(std::process::Stdio::piped())
@@ -946,7 +961,9 @@ mod imp {
         let pn = cell.p.name();
         let events: Vec<&str> = run.stderr.lines().filter(|l| l.starts_with("EV ")).map(|l| l.split(' ').nth(1).unwrap_or("")).collect();
         acc.count("probe_events_observed_in_children", events.len() as u64);
-        let replay = json!({"puller": pn, "zstd": cell.zstd, "payload_len": cell.n, "chunk": cell.chunk, "dest": format!("{:?}", cell.dest), "kill_point": cell.point, "nth": cell.nth, "seed": cell.seed});
+        let spelling = SPELLINGS[cell.spelling as usize % 4];
+        let replay = json!({"puller": pn, "zstd": cell.zstd, "payload_len": cell.n, "chunk": cell.chunk, "dest": format!("{:?}", cell.dest), "kill_point": cell.point, "nth": cell.nth, "seed": cell.seed, "destination_spelling": spelling});
+        acc.count(&format!("children_with_{}_destination", spelling.replace('-', "_")), 1);
         if run.timed_out {
             acc.inconclusive.push(format!("child {pn} @ {}#{} exceeded 20 s", cell.point, cell.nth));
             return;
@@ -968,11 +985,18 @@ mod imp {
             // control: the uninterrupted child must publish the complete content
             acc.evals += 1;
             acc.cell(cell_id);
-            acc.distinct.push(hash_of(&(pn, cell.zstd, cell.dest, "control")));
-            if run.code != Some(0) || now != DestNow::Complete || after.contains_key(TEMP) {
+            acc.distinct.push(hash_of(&(pn, cell.zstd, cell.dest, "control", cell.spelling)));
+            if run.code == Some(10) && now != DestNow::Prior {
+                // the pull reported failure, yet the destination is no longer what it was
+                acc.viol.push((
+                    format!("C10:failed-pull-changed-destination:{pn}:{spelling}"),
+                    format!("uninterrupted child with a {spelling} destination: the pull returned an error ({}) but the destination changed: {}; directory {dir_desc}", trunc(run.stderr.lines().last().unwrap_or(""), 160), describe_dest(&after, &c.publish)),
+                    replay,
+                ));
+            } else if run.code != Some(0) || now != DestNow::Complete || after.contains_key(TEMP) {
                 acc.viol.push((
                     format!("C10:control-pull-did-not-publish:{pn}"),
-                    format!("uninterrupted child exit={:?} signal={:?}; destination: {}; directory {dir_desc}; stderr tail: {}", run.code, run.signal, describe_dest(&after, &c.publish), trunc(run.stderr.lines().last().unwrap_or(""), 160)),
+                    format!("uninterrupted child ({spelling} destination) exit={:?} signal={:?}; destination: {}; directory {dir_desc}; stderr tail: {}", run.code, run.signal, describe_dest(&after, &c.publish), trunc(run.stderr.lines().last().unwrap_or(""), 160)),
                     replay,
                 ));
             } else {
@@ -993,10 +1017,10 @@ mod imp {
         acc.evals += 1;
         acc.cell(cell_id);
         acc.count("children_killed_at_point", 1);
-        acc.distinct.push(hash_of(&(pn, cell.zstd, cell.dest, cell.point, cell.nth, cell.n, cell.chunk)));
+        acc.distinct.push(hash_of(&(pn, cell.zstd, cell.dest, cell.point, cell.nth, cell.n, cell.chunk, cell.spelling)));
         let allowed = if cell.point == "svs.after_rename" { DestNow::Complete } else { DestNow::Prior };
         let d = format!(
-            "{pn} ({}) killed at {}#{}; probe order seen: {}; destination before: {}; after: {}; directory after: {dir_desc}",
+            "{pn} ({}, {spelling} destination) killed at {}#{}; probe order seen: {}; destination before: {}; after: {}; directory after: {dir_desc}",
             if cell.zstd { "zstd" } else { "none" },
             cell.point,
             cell.nth,
@@ -1028,7 +1052,7 @@ mod imp {
         let mut rep = Report::new(
             args,
             "c10-crash-points",
-            "each file puller x {none,zstd} x destination {absent, existing} x kill point {svs.temp_created, svs.chunk_fetched#1..m, \
+            "each file puller x {none,zstd} x destination {absent, existing} x destination spelling {absolute, bare file name, ./name, dir/name relative to the cwd} x kill point {svs.temp_created, svs.chunk_fetched#1..m, \
              svs.before_flush, svs.before_sync, svs.after_sync, svs.before_rename, svs.after_rename} executed in a child process that \
              SIGKILLs itself inside the probe callback; oracle: directory snapshot - destination exactly prior before the rename point, \
              exactly complete after it, never anything else (a stale .svspart is tolerated after SIGKILL); plus one uninterrupted control \
@@ -1044,11 +1068,19 @@ mod imp {
                     for &dest in dests {
                         let seed = rng.below(1 << 40);
                         let m = svs::split_chunks(&content_for(p, zstd, seed, n).wire, chunk).len() as u64;
-                        cells.push(Cell { p, zstd, n, chunk, dest, point: "none", nth: 0, seed });
+                        cells.push(Cell { p, zstd, n, chunk, dest, point: "none", nth: 0, seed, spelling: (seed % 4) as u8 });
+                        if (n, chunk) == layouts[0] {
+                            // every spelling of the destination gets an uninterrupted control for every puller / compression / state
+                            for sp in 0..4u8 {
+                                if sp != (seed % 4) as u8 {
+                                    cells.push(Cell { p, zstd, n, chunk, dest, point: "none", nth: 0, seed, spelling: sp });
+                                }
+                            }
+                        }
                         for point in POINTS {
                             let nths: Vec<u64> = if point == "svs.chunk_fetched" { (1..=m.min(9)).collect() } else { vec![1] };
                             for nth in nths {
-                                cells.push(Cell { p, zstd, n, chunk, dest, point, nth, seed });
+                                cells.push(Cell { p, zstd, n, chunk, dest, point, nth, seed, spelling: ((seed >> 2) % 4) as u8 });
                             }
                         }
                     }
